@@ -160,6 +160,11 @@ func (c *Config) HasField(name string) bool {
 //
 // Remove supports the options: PathSep
 func (c *Config) Remove(name string, idx int, options ...Option) (bool, error) {
+	if c.fields == nil {
+		// the zero value of Config holds no settings
+		return false, nil
+	}
+
 	opts := makeOptions(options)
 
 	// ignore environments
